@@ -68,7 +68,11 @@ def correspond(res):
             spec["N0"] = 3
         obs = D.run_engine(spec)
         if obs["raised"]:
-            res.broke("correspondence driver", f"Engine.price raised {obs['raised']} on {spec}")
+            if spec["dim"] > 1 and obs["raised"].startswith("ValueError"):
+                res.violation("the multilevel engine cannot price a vector payoff: Engine.price raises",
+                              D.replay_payload(spec, obs, finding="F-C05-3", raised=obs["raised"]))
+            else:
+                res.broke("correspondence driver", f"Engine.price raised {obs['raised']} on {spec}")
             continue
         added = len(obs["Nl"]) - (spec["L0"] + 1)
         passes = len(obs["atab"]) - added
@@ -93,7 +97,51 @@ def correspond(res):
         res.case_ok += nshards
 
     _fixed_variant(res, rng)
+    _engine_reuse(res, rng)
     _control_variates(res, rng)
+
+
+def _engine_reuse(res, rng):
+    """sequences of 2-3 pricings on ONE Engine instance (other levels / sample sizes / product / oracles each time)"""
+    n_seq = 45 if res.tier == "quick" else 400
+    cases = []
+    for i in range(n_seq):
+        specs = [D.gen_spec(rng, "small") for _ in range(rng.choice([2, 2, 3]))]
+        if i % 3 == 0:                      # the auditor's shape: the later pricing goes to higher levels than the first
+            specs[0]["L0"], specs[0]["Lmax"] = 1, 1
+            specs[1]["L0"], specs[1]["Lmax"] = rng.choice([1, 2]), 3
+            for sp in specs:
+                sp["ctab"] = sp["ctab"] + [1.0] * 8
+        observations = D.run_engine_seq(specs)
+        ok = True
+        for k, (spec, obs) in enumerate(zip(specs, observations)):
+            if obs["raised"]:
+                res.broke("correspondence driver", f"pricing {k} of a sequence on one engine raised {obs['raised']}")
+                ok = False
+                break
+            res.count(("reuse", k, json.dumps(specs[:k + 1], sort_keys=True, default=str)), nontrivial=k >= 1, kind=f"engine re-used, pricing #{k}")
+            res.bump("reuse_levels_vs_previous", "first" if k == 0 else ("more levels" if len(obs["Nl"]) > len(observations[k - 1]["Nl"]) else "same or fewer levels"))
+            for what, det in D.check_c05(spec, obs):
+                pl = D.replay_payload(spec, obs, **det)
+                pl.update({"kind": "sequence", "index": k,
+                           "sequence": [dict({kk: vv for kk, vv in sp.items()}, atab=ob.get("atab"), vtab=ob.get("vtab")) for sp, ob in zip(specs[:k + 1], observations)],
+                           "note": "pricings 0..index run in order on ONE Engine instance; the violation is in pricing `index`"})
+                res.violation(what + (" (engine re-used for a further pricing)" if k else ""), pl)
+        if not ok or len(observations) < len(specs):
+            continue
+        ins = lst([D.coq_pricing(sp, ob) for sp, ob in zip(specs, observations)])
+        exs = lst([f"({zlit(1 if ob['fallthrough'] else 0)}, {D.coq_expected_rows(ob)}, {D.coq_expected_results(ob)})" for ob in observations])
+        cases.append(f"({ins}, {exs})")
+    chk = ("fun c => all2 (fun o e => match e with (tag, er, ex) => Z.eqb (out_tag o) tag && corr_rows (out_levels o) er && "
+           "corr_results tol (out_levels o) ex end) (run_seq pm_offs true 0 [] (map tab_pricing (fst c))) (snd c)")
+    ty = ("list (list (list (Q * Q)) * list Q * list (list Z) * list bool * (Q * Q) * (nat * nat * nat * nat)) * "
+          "list (Z * (list Z * list Z * list (list row)) * (Q * Q * list (list Q)))")
+    bad, nshards = parallel_coq_bad(PROP, "reuse", HEADER, ty, chk, cases, shard=10 if res.tier == "quick" else 40, timeout=900, jobs=12)
+    res.case_lemmas += nshards
+    if bad:
+        res.broke("correspondence reuse", f"model and implementation differ on {len(bad)} pricing sequences on one engine, first: {cases[bad[0]][:1500]}")
+    else:
+        res.case_ok += nshards
 
 
 def _fixed_variant(res, rng):
@@ -106,8 +154,7 @@ def _fixed_variant(res, rng):
                 "salt": rng.randrange(17), "ctab": [rng.choice([0.5, 1.0, 2.0, 4.0]) for _ in range(Lmax + 3)], "dim": rng.choice([1, 1, 2])}
         obs = D.run_engine(spec, alloc=[], conv=[], fixed=True)
         res.count(("fixed", L0, Lmax, N), nontrivial=Lmax >= 1, kind="fixed-level variant")
-        smp = D.sample_fn(spec["salt"])
-        samples = lst([lst([D.qpair(smp(l, n)) for n in range(N + 1)]) for l in range(max(L0, Lmax) + 2)])
+        samples = lst([lst([D.qpair(D.raw_value(spec, l, n)) for n in range(N + 1)]) for l in range(max(L0, Lmax) + 2)])
         args = (f"(tab_sample {samples}) (tab_cost {lst([qlit(c) for c in spec['ctab']])}) const_garbage {qlit(spec['df'])} "
                 f"{qlit(spec['notional'])} {natlit(L0)} {natlit(Lmax)} {natlit(N)}")
         if obs["raised"]:
@@ -196,14 +243,13 @@ def _control_variates(res, rng):
         total = Fraction(0)
         skip = False
         df, no = Fraction(spec["df"]), Fraction(spec["notional"])
-        smp = D.sample_fn(spec["salt"])
         for l in range(min(len(obs["Nl"]), obs["n_stat_levels"])):
             n = obs["draws"][l]
             if n == 0 or obs["Nl"][l] != n:
                 continue
             adj = np.array(st.mc_statistics[l]._payoff_statistics_with_cv.stats)[:, 0, :]
             X = np.array(st.mc_statistics[l]._control_variates_statistics.stats)
-            raw = [smp(l, k) for k in range(n)]
+            raw = [D.raw_value(spec, l, k) for k in range(n)]
             for side in (0, 1):
                 if l == 0 and side == 1:
                     want_adj = [Fraction(0)] * n
